@@ -160,7 +160,7 @@ impl serde::Serializer for &mut URLEncodedSerializer {
         Ok(())
     }
     fn serialize_char(self, v: char) -> Result<Self::Ok, Self::Error> {
-        self.output.push(v);
+        self.output.push_str(&percent_encode(v.encode_utf8(&mut [0; 4])));
         Ok(())
     }
 
